@@ -932,6 +932,12 @@ class CE:
             m = self.prog.find_method(o, attr)
             if m is not None:
                 return m if m.is_static else BoundRepo(o, m)
+            if attr == "_fields" and any(b.split(".")[-1] == "NamedTuple" for b in o.bases):
+                return tuple(st.target.id for st in o.node.body if isinstance(st, ast.AnnAssign) and isinstance(st.target, ast.Name))
+            if attr in o.class_assigns:
+                mf = pyfacts.Func.__new__(pyfacts.Func)
+                mf.module, mf.qualname, mf.name, mf.node, mf.cls = o.module, "<class>", "<class>", o.node, None
+                return self.ev(o.class_assigns[attr], dict(o.methods), mf)
             raise Unsupported(f"class attribute {o.name}.{attr}")
         if isinstance(o, pyfacts.Module):
             r = self.prog.lookup_global(o, attr)
@@ -1259,6 +1265,9 @@ class CE:
                 return getattr(math, name)(*args, **kwargs)
             except (ValueError, TypeError, OverflowError) as ex:
                 raise CERaise(type(ex).__name__, str(ex))
+        if dotted.startswith("os.path.") and name in ("split", "join", "basename", "dirname", "splitext", "normpath") and all(isinstance(a, str) for a in args) and not kwargs:
+            import posixpath
+            return getattr(posixpath, name)(*args)
         if dotted == "logging.getLogger":
             return ("logger",)
         if dotted in ("re.compile", "re.match", "re.fullmatch", "re.search", "re.findall", "re.finditer", "re.split", "re.sub", "re.escape"):
